@@ -111,8 +111,11 @@ func (s *c02Seq) bind(expr string, op string, view bool, extended ...*c02Val) bo
 	s.log = append(s.log, src)
 	v, ok := s.eval(src)
 	if !ok {
+		// a step that fails must leave every existing value alone as well
+		s.c.Count("failed_steps_followed_by_inspection", 1)
+		okAll := s.inspect(op + "(failed)")
 		s.log = s.log[:len(s.log)-1]
-		return true
+		return okAll
 	}
 	for _, e := range extended {
 		e.ext++
@@ -237,7 +240,14 @@ func (s *c02Seq) step() bool {
 		}
 	case 10:
 		if v := s.pick(func(n *canon.Node) bool { return isVecN(n) && len(n.L) > 0 }); v != nil {
-			return s.bind(fmt.Sprintf("(assoc %s %d %s)", v.name, r.Intn(len(v.snap.L)), s.scalar()), "assoc-vector", false, v)
+			idx := r.Intn(len(v.snap.L))
+			if r.Intn(4) == 0 {
+				// the indices around the end of the vector: errors today; a tree that accepts them must still not
+				// write through to the backing array it shares with other values (seeded C02-m13)
+				idx = len(v.snap.L) + r.Intn(3) - 1
+				s.c.Count("assoc_vector_at_boundary_index", 1)
+			}
+			return s.bind(fmt.Sprintf("(assoc %s %d %s)", v.name, idx, s.scalar()), "assoc-vector", false, v)
 		}
 	case 11:
 		if m := s.pick(func(n *canon.Node) bool { return isMapN(n) || isSetN(n) }); m != nil {
